@@ -32,7 +32,8 @@ def header(r, paragraphs=None, lead=None):
     paragraphs = paragraphs if paragraphs is not None else r.randint(1, 3)
     paras = []
     for i in range(paragraphs):
-        lines = [sentence(r) for _ in range(1 if i == 0 else r.randint(1, 3))]
+        # (the summary itself may run over two lines)
+        lines = [sentence(r) for _ in range((2 if r.random() < 0.3 else 1) if i == 0 else r.randint(1, 3))]
         if lead:
             lines = ["%s %s" % (r.choice(lead), l[0].lower() + l[1:]) if r.random() < 0.5 else l for l in lines]
         paras.append("\n".join(lines))
